@@ -405,7 +405,15 @@ fn roll(a: &[String]) {
 
 // ------------------------------------------------------------------------------------------ C19
 fn content<IntT: Wide>(a: &MergeSkaArray<IntT>) -> String {
-    format!("{a}{a:?}")
+    // the read-out (k, strand mode, names, rows) plus a re-serialisation of the whole object, so that fields the read-out
+    // does not show (the stored per-row counts) are part of what "decodes to the original" means
+    let mut cbor: Vec<u8> = Vec::new();
+    ciborium::ser::into_writer(a, &mut cbor).expect("re-serialisation failed");
+    let mut h: u64 = 0xcbf29ce484222325;
+    for b in &cbor {
+        h = (h ^ (*b as u64)).wrapping_mul(0x100000001b3);
+    }
+    format!("{a}{a:?}cbor_len={}\ncbor_fnv={h:016x}\n", cbor.len())
 }
 
 /// Load as the command line does: 64 bits first, then 128.
